@@ -12,12 +12,13 @@ open Eru Eru.Book
     `1 ≤ k ≤ MaxInt`, `CalculateDeploy` accepts `k` iff `k` is at most the capacity reported by
     `doGetNodeDeployCapacity` for the same (validated) request — i.e. the reported capacity is
     the largest accepted count (negative free memory and `memory = 0 ↦ MaxInt` included).
-    ASSUMPTION made explicit for bound requests: capacity and admission each call the scheduler, here
-    the *same function value* `sched n [] req`.  The real `GetCPUPlans` visits NUMA groups in Go map
-    order, so two calls may return the plans in different orders; the statement transfers to the
-    code provided the *number* of plans does not depend on that order (to be proved by group
-    "sched" as `getCPUPlans_length_order_indep`; the correspondence check compares the reported
-    capacity with admission at cap-1, cap, cap+1 on NUMA nodes on every run). -/
+    For bound requests capacity and admission each call the scheduler; here both use the same
+    function value `sched n [] req`.  The real `GetCPUPlans` visits NUMA groups in Go map order, so the
+    two Go calls may see different orders: `capacity_is_max_accepted_two_calls` below states the
+    theorem for two different scheduler answers with the same number of plans, and group "sched"
+    proves that the number of plans of the modelled `GetCPUPlans` does not depend on the visiting
+    order (`Eru.Props.C04.getCPUPlans_length_order_indep`, with the corollaries
+    `capacity_order_indep` and `admission_order_indep`). -/
 theorem capacity_is_max_accepted (sched : Sched) (n : NodeInfo) (req0 req : Req)
     (hv : req0.validate = .ok req) (k : Int) (hk1 : 1 ≤ k) (hk2 : k ≤ maxInt) :
     (calculateDeploy sched n k req0).isOk = true ↔ k ≤ deployCapacity sched n req := by
@@ -49,6 +50,19 @@ theorem capacity_is_max_accepted (sched : Sched) (n : NodeInfo) (req0 req : Req)
           · intro h; cases h
           · intro h; omega
         · simp only [hd, if_false, Outcome.isOk, true_iff]; omega
+
+/-- The same with two independent scheduler answers (the capacity query and the admission are
+    separate Go calls whose NUMA visiting orders may differ): it is enough that both return the
+    same *number* of plans — which is `Eru.Props.C04.getCPUPlans_length_order_indep` for the
+    modelled `GetCPUPlans` under any two visiting orders. -/
+theorem capacity_is_max_accepted_two_calls (schedCap schedAlloc : Sched) (n : NodeInfo) (req0 req : Req)
+    (hv : req0.validate = .ok req) (k : Int) (hk1 : 1 ≤ k) (hk2 : k ≤ maxInt)
+    (hlen : (schedCap n [] req).length = (schedAlloc n [] req).length) :
+    (calculateDeploy schedAlloc n k req0).isOk = true ↔ k ≤ deployCapacity schedCap n req := by
+  have : deployCapacity schedCap n req = deployCapacity schedAlloc n req := by
+    unfold deployCapacity; rw [hlen]
+  rw [this]
+  exact capacity_is_max_accepted schedAlloc n req0 req hv k hk1 hk2
 
 /-- A refused count is refused as "insufficient capacity" (never a crash) for `k ≥ 1`. -/
 theorem refusal_is_insufficient (sched : Sched) (n : NodeInfo) (req0 req : Req)
